@@ -107,6 +107,45 @@ theorem Seg.mem_lt {tr : Array (Item χ κ)} {prev nxt : Option Nat} {t : List N
       simp at this
     · exact ih h.2 b hb
 
+theorem linkOf_eq_some {tr : Array (Item χ κ)} {a : Nat} {p q : Option Nat} :
+    linkOf tr a = some (p, q) ↔ ∃ ia, tr[a]? = some ia ∧ ia.left = p ∧ ia.right = q := by
+  unfold linkOf
+  cases tr[a]? with
+  | none => simp
+  | some ia => simp
+
+/-- `Seg` from its pointwise reading: consecutive ids are linked both ways, the first id's `left`
+is `prev`, the last id's `right` is `nxt`. -/
+theorem Seg_of_clauses {tr : Array (Item χ κ)} (T : List Nat) (prev nxt : Option Nat)
+    (hcons : ∀ A a b B, T = A ++ a :: b :: B →
+      ∃ ia ib, tr[a]? = some ia ∧ tr[b]? = some ib ∧ ia.right = some b ∧ ib.left = some a)
+    (hhead : ∀ a B, T = a :: B → ∃ ia, tr[a]? = some ia ∧ ia.left = prev)
+    (hlast : ∀ A a, T = A ++ [a] → ∃ ia, tr[a]? = some ia ∧ ia.right = nxt) :
+    Seg tr prev T nxt := by
+  induction T generalizing prev with
+  | nil => trivial
+  | cons a rest ih =>
+    obtain ⟨ia, hia, hleft⟩ := hhead a rest rfl
+    refine ⟨?_, ih (some a) ?_ ?_ ?_⟩
+    · rw [linkOf_eq_some]
+      refine ⟨ia, hia, hleft, ?_⟩
+      cases rest with
+      | nil =>
+        obtain ⟨ia', hia', hr⟩ := hlast [] a rfl
+        rw [hia] at hia'; cases hia'
+        exact hr
+      | cons b rest' =>
+        obtain ⟨ia', ib, hia', -, hr, -⟩ := hcons [] a b rest' rfl
+        rw [hia] at hia'; cases hia'
+        exact hr
+    · intro A x y B hT
+      exact hcons (a :: A) x y B (by rw [hT]; rfl)
+    · intro b B hT
+      obtain ⟨-, ib, -, hib, -, hl⟩ := hcons [] a b B (by rw [hT]; rfl)
+      exact ⟨ib, hib, hl⟩
+    · intro A z hT
+      exact hlast (a :: A) z (by rw [hT]; rfl)
+
 /-! ## the walk -/
 
 /-- `walk` on the array -/
@@ -514,7 +553,7 @@ theorem xOf_isSome_of_lt {tr : Array (Item χ κ)} {i : Nat} (h : i < tr.size) :
 /-- `insert` with a correct (or no) hint succeeds and splices the new id into the list. -/
 theorem insert_rep [LinearOrder κ] {s : State χ κ} {t : List Nat} (h : Rep s.trials s.first t)
     (new : Item χ κ) (hint : Option Nat)
-    (hfirst : ∀ f xf, s.first = some f → xOf s.trials f = some xf → xf < new.x)
+    (hfirst : ∀ f xf, s.first = some f → xOf s.trials f = some xf → xf ≤ new.x)
     (hcover : ∃ j xj, xOf s.trials j = some xj ∧ new.x < xj)
     (hhint : hint = none ∨ hint = find ltB s new.x) :
     ∃ pre' l r post rit s',
@@ -539,7 +578,7 @@ theorem insert_rep [LinearOrder κ] {s : State χ κ} {t : List Nat} (h : Rep s.
   have hne : pre ≠ [] := by
     rintro rfl
     have hf : s.first = some r := by rw [h.first_eq, ht]; rfl
-    exact absurd (hfirst r xr hf hxr) (lt_asymm hxlt)
+    exact absurd (hfirst r xr hf hxr) (not_le_of_gt hxlt)
   obtain ⟨pre', l, rfl⟩ : ∃ pre' l, pre = pre' ++ [l] :=
     ⟨pre.dropLast, pre.getLast hne, (List.dropLast_concat_getLast hne).symm⟩
   have ht' : t = pre' ++ l :: r :: post := by rw [ht]; simp
